@@ -20,6 +20,7 @@ A program is (funcs, main): funcs[i] is the body of function f<i>; f<i> may only
 """
 
 PRELUDE3 = r'''exec 3>&1
+readonly RO=0
 Q() { return $1; }
 L() { local id=$1; shift; eval "local k=\${K$id:-0}"; eval "K$id=\$((k+1))"; echo "m$id" >&3; local n=$#; if ((k >= n)); then k=$((n-1)); fi; shift $k; return $1; }
 '''
@@ -124,6 +125,11 @@ def r_cmd(c, ind):
         if c[1] == "i":
             return "shopt -%s inherit_errexit" % ("s" if c[2] else "u")
         raise ValueError(c[1])
+    if k == "Fa":
+        return {"r": "RO=1 true", "n": "nosuchcmd_zz 2>/dev/null", "d": "true < /nonexistent_zz/f 2>/dev/null",
+                "b": "XT=1 true", "x": "XT=1 /bin/true"}[c[1]]
+    if k == "KT":
+        return "XT=1 f%d" % c[1]
     if k == "Pi":
         return " | ".join(["Q %d" % x for x in c[1]] + [r_cmd(c[2], ind) if c[2][0] not in LIST_LEVEL else "{ " + r_list(c[2], ind) + "; }"])
     if k == "Cs":
@@ -201,6 +207,10 @@ def wire(c, out):
     elif k == "Pi":
         out += ["Pi", str(len(c[1]))] + [str(x) for x in c[1]]
         wire(c[2], out)
+    elif k == "Fa":
+        out += ["Fa", c[1]]
+    elif k == "KT":
+        out += ["KT", str(c[1])]
     else:
         raise ValueError(k)
     return out
@@ -234,6 +244,8 @@ class Gen:
     def leaf(self, codes=None):
         r = self.rng
         self.next_id += 1
+        if codes is None and "fixed" in self.feats:
+            codes = [r.choice(CODES if r.random() < 0.4 else [0, 0, 1])]
         if codes is None:
             n = r.choice([1, 1, 1, 2, 3])
             codes = [r.choice(CODES if r.random() < 0.5 else [0, 1]) for _ in range(n)]
@@ -321,6 +333,13 @@ class Gen:
             self.has_opts = True
             o = "e" if "opts2" not in self.feats else r.choice(["e", "e", "p", "i"])
             return ("O", o, r.random() < 0.7)
+        if "faults" in self.feats and r.random() < 0.3:
+            if ncalls and r.random() < 0.3:
+                f = r.choice(ncalls)
+                if self.func_opts.get(f):
+                    self.has_opts = True
+                return ("KT", f)
+            return ("Fa", r.choice(["r", "n", "d", "b", "x"]))
         k = r.random()
         if k < 0.5:
             return self.leaf()
